@@ -66,6 +66,11 @@ class PDDLFunction:
     def value(self) -> float:
         return self.stored_value
 
+    @property
+    def _printed_value(self) -> float:
+        """The value as written in a state - zero is written without a sign (0.0 and -0.0 are one value)."""
+        return abs(self.value) if self.value == 0 else self.value
+
     def set_value(self, value: float) -> None:
         """Set the value of a function to be the input value.
 
@@ -84,7 +89,7 @@ class PDDLFunction:
         )
 
         untyped_signature_str = " ".join(function_variables)
-        return f"(= ({self.name} {untyped_signature_str}) {self.value})"
+        return f"(= ({self.name} {untyped_signature_str}) {self._printed_value})"
 
     @property
     def state_typed_representation(self) -> str:
@@ -100,7 +105,7 @@ class PDDLFunction:
             f"{parameter_name} - {str(self.signature[parameter_name])}"
             for parameter_name in function_variables
         ]
-        return f"(= ({self.name} {' '.join(signature_str_items)}) {self.value})"
+        return f"(= ({self.name} {' '.join(signature_str_items)}) {self._printed_value})"
 
     @property
     def untyped_representation(self) -> str:
